@@ -10,7 +10,7 @@ git -C /repo worktree remove --force $WT >/dev/null 2>&1
 git -C /repo worktree add --detach $WT HEAD >/dev/null 2>&1 || { echo "worktree failed"; exit 2; }
 cp $OUT/$DEMO $WT/$DEST
 (cd $WT && go test -count=1 -run "$RUN" $PKG > /tmp/sv-$PROP-$VAR.clean.log 2>&1); CLEAN=$?
-(cd $WT && git apply $OUT/patch.diff) || { echo "patch does not apply"; git -C /repo worktree remove --force $WT; exit 3; }
+(cd $WT && { git apply $OUT/patch.diff || { echo "plain apply failed, trying --3way"; git apply --3way $OUT/patch.diff && git reset -q; }; }) || { echo "patch does not apply"; git -C /repo worktree remove --force $WT; exit 3; }
 (cd $WT && go build ./... > /tmp/sv-$PROP-$VAR.build.log 2>&1); BUILD=$?
 (cd $WT && go test -count=1 -run "$RUN" $PKG > /tmp/sv-$PROP-$VAR.patched.log 2>&1); PATCHED=$?
 echo "demo on HEAD rc=$CLEAN (want 0); build rc=$BUILD; demo with patch rc=$PATCHED (want !=0)"
@@ -31,7 +31,7 @@ mp=os.path.join(d,'meta.json')
 m=json.load(open(mp)) if os.path.exists(mp) else {}
 m.update({"property":prop,"variant":var,"base_commit":head,"demo_file":os.path.basename(dest),"demo_placement":dest,
  "demo_cmd":"go test -count=1 -run '%s' %s"%(run,pkg),"demo_on_head_rc":int(clean),"demo_with_patch_rc":int(patched),"build_rc":int(build)})
-m.setdefault("check_runs",[]).append({"tier":tier,"rc":int(check),"detected":int(check)==1,"wall_s":int(secs),"cmd":"VERIF_REPO=<worktree with patch> ./check %s --tier %s"%(prop,tier)})
+m.setdefault("check_runs",[]).append({"head":head,"tier":tier,"rc":int(check),"detected":int(check)==1,"wall_s":int(secs),"cmd":"VERIF_REPO=<worktree with patch> ./check %s --tier %s"%(prop,tier)})
 m["detected_by_check"]=any(r["detected"] for r in m["check_runs"])
 json.dump(m,open(mp,'w'),indent=1)
 PY
